@@ -16,12 +16,12 @@ var idxAssume = []string{
 
 var metas = map[string]PropMeta{
 	"C01": {
-		Explanation: "PIPE-CLONE, LOST-UPDATE (rewriters), ENC-MAPKEY and ENC-CMP (rewriters and flatten.go), REF-EQ, ENC-FRAGSPLIT, ENC-CONSUMER, PIPE-REBASE, LOOPVAR-ADDR. Each is a necessary condition: violating it changes the meaning of some bundle in W.",
+		Explanation: "PIPE-CLONE, LOST-UPDATE (rewriters), ENC-MAPKEY and ENC-CMP (rewriters and flatten.go), REF-EQ, ENC-FRAGSPLIT, ENC-CONSUMER, PIPE-REBASE, LOOPVAR-ADDR, REF-BASENAME, SYNC-RECORD. Each is a necessary condition: violating it changes the meaning of some bundle in W.",
 		NotDecided:  []string{"bisimulation of the $ref-unfolded documents", "that a re-pointed $ref designates the same schema", "normalize.RebaseRef's path arithmetic", "OAIGen de-duplication", "that paths/operations/parameters are otherwise untouched"},
 		Assumptions: []string{"string encodings: N raw name, T pointer-escaped token, P joined tokens, K '#'+P, U URL-escaped K; signatures of jsonpointer.Escape/Unescape, path.Join/Base/Dir, url.PathUnescape, Ref.String as read from their sources; names contain no '%'"},
 	},
 	"C02": {
-		Explanation: "PIPE-ORDER on Flatten (phases identified by what they reach: spec.ExpandSpec, sortref.ReverseIndex, replace.UpdateRefWithSchema) REF-CANONICAL on every $ref written into the root document, GUARD-EMPTYNAME in the naming loop and NAME-TOTAL on the function that collects the candidate names (never an empty list).",
+		Explanation: "PIPE-ORDER on Flatten (phases identified by what they reach: spec.ExpandSpec, sortref.ReverseIndex, replace.UpdateRefWithSchema) REF-CANONICAL on every $ref written into the root document, GUARD-EMPTYNAME in the naming loop, SYNC-RECORD (a record resolved twice is refreshed in full) and NAME-TOTAL on the function that collects the candidate names (never an empty list).",
 		NotDecided:  []string{"spec.ExpandSpec removing every non-schema $ref", "reaching the import and pointer fixpoints", "absence of $refs the analyzer does not see (C11)"},
 		Assumptions: []string{"the single transient non-canonical write (stripOAIGenForRef re-pointing parents to the first parent) is followed by pointer naming, as its return value requests"},
 	},
@@ -31,7 +31,7 @@ var metas = map[string]PropMeta{
 		Assumptions: []string{"strings.EqualFold is the case-insensitive comparison meant by the statement"},
 	},
 	"C04": {
-		Explanation: "PIPE-HOLDERS, SYNC-ENTRY, ENC-REFARG (known finding), ENC-PREFIXSEP, PIPE-ABSJOIN, ENC-FRAGSPLIT, ENC-CONSUMER.",
+		Explanation: "PIPE-HOLDERS (value and parent kinds; every *spec.Schema member of the model read from the types), GUARD-PLANNED, SYNC-ENTRY, ENC-REFARG (known finding), ENC-PREFIXSEP, PIPE-ABSJOIN, ENC-FRAGSPLIT, ENC-CONSUMER.",
 		NotDecided:  []string{"that Flatten returns nil on every bundle of W"},
 		Assumptions: []string{"the kinds of value jsonpointer.Get can return for an analyzer key are *Schema, Schema, *SchemaOrArray, *SchemaOrBool, and the containers of a by-value schema are Definitions, map[string]Schema, []Schema, *SchemaOrArray, SchemaProperties (read from go-openapi/spec)"},
 	},
@@ -41,17 +41,17 @@ var metas = map[string]PropMeta{
 		Assumptions: []string{"names contain no '%' (url.PathUnescape is then the inverse of the escaping done by Ref.String)"},
 	},
 	"C07": {
-		Explanation: "ORD-LOOP over every unordered loop below Flatten, ORD-SINK over every use of an order-tainted slice or field, ORD-TOTAL over every comparator that sorts below Flatten.",
-		NotDecided:  []string{"three loops frozen as assumptions (see exempt obligations)", "transitivity of the Less functions (ORD-TOTAL decides that distinct elements are separated)", "byte-identical serialisation"},
+		Explanation: "ORD-LOOP over every unordered loop below Flatten, ORD-SINK over every use of an order-tainted slice or field, ORD-TOTAL (distinct elements are separated) and ORD-STRICT (strict weak order, by exhaustive evaluation over the orderings of the compared terms) over every comparator that sorts below Flatten.",
+		NotDecided:  []string{"three loops frozen as assumptions (see exempt obligations)", "comparators outside the modelled fragment (a comparison between different terms, a call to another comparator): ORD-STRICT then emits a note, no verdict", "byte-identical serialisation"},
 		Assumptions: []string{"Go map iteration order is the only source of nondeterminism (single goroutine, no time or randomness below Flatten)", "distinct iterations of a loop over a map write distinct keys when the key is the loop variable"},
 	},
 	"C09": {
-		Explanation: "NIL-DEREF (with lookup pairs and typed-nil identity), TERM-REC, TERM-THREAD, TERM-SELFINLINE, TERM-VISITED/COUNTER (fixpoint loops inventoried as exempt), ERR-PROP/ERR-DROP, ERR-RESOLVE-SKIPPED, COV-EXPANDOPTS, PANIC-UNREACH, PANIC-INDEX, PANIC-SLICEBOUND, PANIC-BOUNDARY (the calls into the resolvers of go-openapi/spec run under a recover that returns an error), ENC-MUSTREF (known finding).",
+		Explanation: "NIL-DEREF (with lookup pairs and typed-nil identity), TERM-REC, TERM-THREAD, TERM-SELFINLINE, TERM-VISITED/COUNTER (fixpoint loops inventoried as exempt), ERR-PROP/ERR-DROP, ERR-RESOLVE-SKIPPED, COV-EXPANDOPTS, PANIC-UNREACH, PANIC-INDEX, PANIC-SLICEBOUND, PANIC-BOUNDARY (the calls into the resolvers of go-openapi/spec run under a recover that returns an error), COV-ALLREFS, TERM-IMPORT-PROGRESS, ENC-MUSTREF (known finding).",
 		NotDecided:  []string{"termination of importReferences and stripPointersAndOAIGen", "index and slice bounds other than constant indexes into split keys and parameters used as slice bounds", "panics inside jsonpointer and swag, and inside go-openapi/spec outside the five resolver calls covered by PANIC-BOUNDARY", "which load fails at run time"},
 		Assumptions: []string{"a call does not nil-out a field of a value it receives", "documents are finite trees"},
 	},
 	"C10": {
-		Explanation: "Typestate E/S/T (unchanged since entry / in sync / stale) propagated through every function below Flatten with summaries over success exits only (error exits are excluded by the dominating err != nil test). Events: stores into document storage and in-place external mutators (stale), the rebuild method on the Spec handed to Flatten (sync), reads of Spec's index fields or query methods on that Spec (need sync when nothing was mutated yet in the function). Fresh analyzers (New(opts.Swagger()), the partial analyzer of importNewRef) are other objects and change nothing.",
+		Explanation: "Typestate E/S/T (unchanged since entry / in sync / stale) propagated through every function below Flatten with one summary over success exits and one over error exits per function: the branch `err != nil` of a module call is entered in the callee's error-exit state, so an error branch that returns changes nothing and one that falls through (an error downgraded to a warning) is followed. Events: stores into document storage and in-place external mutators (stale), the rebuild method on the Spec handed to Flatten (sync), reads of Spec's index fields or query methods on that Spec (need sync when nothing was mutated yet in the function). Fresh analyzers (New(opts.Swagger()), the partial analyzer of importNewRef) are other objects and change nothing. SYNC-RELOAD-EQ-NEW: the re-analysis makes the calls New makes, and New stores nothing into the analyzer outside them.",
 		NotDecided:  []string{"that the caller's Spec was in sync when handed to Flatten (assumed)", "equality of answers is derived from 'the last event is a re-analysis identical to New'; the analyzer's own completeness is C11–C14"},
 		Assumptions: []string{"mutator set complete: write-effect summaries plus the external table (spec.ExpandSpec/ExpandSchema, swag.FromDynamicJSON, AddExtension)", "index reads after a phase's own mutations are by design (snapshot iteration) and are not constrained"},
 	},
@@ -71,7 +71,7 @@ var metas = map[string]PropMeta{
 		Assumptions: idxAssume,
 	},
 	"C15": {
-		Explanation: "Nil-guard dataflow over the four lookups (sources: pointer/map fields of go-openapi/spec structs, map lookups of *spec.T without comma-ok), guard rules on the merge function found by role (takes []spec.Parameter, map[string]spec.Parameter, callback), ordering of the two merge calls in each lookup, exhaustiveness of the id lookup over the seven methods.",
+		Explanation: "Nil-guard dataflow over the four lookups (sources: pointer/map fields of go-openapi/spec structs, map lookups of *spec.T without comma-ok), guard rules on the merge function found by role (takes []spec.Parameter, map[string]spec.Parameter, callback), ordering of the two merge calls in each lookup, GUARD-OPFOUND (every merge happens under a fact that establishes the operation asked for, followed to the call sites of closures and unexported helpers), exhaustiveness of the id lookup over the seven methods.",
 		NotDecided:  []string{"collisions of the override key location#GoName", "what jsonpointer returns for exotic $ref targets (trusted base)"},
 		Assumptions: []string{"a call does not nil-out a field of a value it receives", "function results and parameters of exported functions are not maybe-nil sources (only optional fields of the loaded document are)"},
 	},
@@ -110,7 +110,7 @@ var metas = map[string]PropMeta{
 		Assumptions: []string{"spec.ExpandSpec expands schema $refs when SkipSchemas is false (read from its source, not analysed)"},
 	},
 	"C14": {
-		Explanation: "Abstract evaluation of analysis.New for the operations index and the required-media/security unions, exhaustiveness over the seven *spec.Operation fields, upper-case discipline of insertion and lookup, and the nil-vs-empty guard shape of the precedence functions.",
+		Explanation: "Abstract evaluation of analysis.New for the operations index and the required-media/security unions, exhaustiveness over the seven *spec.Operation fields, upper-case discipline of insertion and lookup, the nil-vs-empty guard shape of the precedence functions, and ENC-FORMAT (document strings are operands of formatting calls, never format strings).",
 		NotDecided:  []string{"the values of the precedence/union tables on concrete lists (value-level)", "OperationForName on duplicate or empty ids (outside the quantifier)"},
 		Assumptions: idxAssume,
 	},
